@@ -42,8 +42,8 @@ pub fn range_class(p: &RtcpPacket) -> Option<&'static str> {
             if b.len() > 31 { Some("blocks>31") } else if !b.iter().all(lost_in_range) { Some("lost-outside-24bit") } else { None } }
         RtcpPacket::SourceDescription(s) => {
             if s.chunks.len() > 31 { Some("chunks>31") }
-            else if s.chunks.iter().any(|c| c.items.iter().any(|i| i.text.len() > 255)) { Some("text>255") }
-            else if s.chunks.iter().any(|c| c.items.iter().any(|i| i.ty == 0)) { Some("item-type-0") } else { None } }
+            else if s.chunks.iter().any(|c| c.items.iter().any(|i| i.ty == 0)) { Some("item-type-0") }
+            else if s.chunks.iter().any(|c| c.items.iter().any(|i| i.text.len() > 255)) { Some("text>255") } else { None } }
         RtcpPacket::Goodbye(b) => {
             if b.sources.len() > 31 { Some("sources>31") } else if b.reason.as_ref().map_or(false, |r| r.len() > 255) { Some("reason>255") } else { None } }
         RtcpPacket::PictureLossIndication(_) | RtcpPacket::FullIntraRequest(_) => None,
@@ -54,6 +54,119 @@ pub fn range_class(p: &RtcpPacket) -> Option<&'static str> {
             // (the opaque status/delta payload may have any length: the packet is aligned with RTCP padding)
             if t.reference_time_64ms >= 1 << 24 { Some("reftime>24bit") } else { None } }
     }
+}
+
+fn align4(n: usize) -> usize { (n + 3) & !3 }
+
+/// Independent statement of what serialising then parsing must do to one logical packet, written from the
+/// RFC field widths: `Err(class)` = the value cannot be put on the wire (the marshaller must refuse it),
+/// `Ok(q)` = it can, and `q` must come back: the packet itself, except for the three lossy fields the
+/// formats define — cumulative loss saturates at 24-bit signed (RFC 3550 §6.4.1), a REMB bitrate keeps its
+/// 18 most significant bits (mantissa/exponent), a NACK is the ascending set of its sequence numbers — and a
+/// BYE reason, which this stack cuts to the longest prefix of whole characters that fits 255 bytes.
+pub fn spec_roundtrip(p: &RtcpPacket) -> Result<RtcpPacket, &'static str> {
+    const MAX_BODY: usize = 65_535 * 4;
+    let sat = |b: &ReportBlock| ReportBlock { packets_lost: b.packets_lost.clamp(-(1 << 23), (1 << 23) - 1), ..b.clone() };
+    match p {
+        RtcpPacket::SenderReport(s) => { if s.report_blocks.len() > 31 { return Err("blocks>31"); }
+            Ok(RtcpPacket::SenderReport(SenderReport { report_blocks: s.report_blocks.iter().map(sat).collect(), ..s.clone() })) }
+        RtcpPacket::ReceiverReport(s) => { if s.report_blocks.len() > 31 { return Err("blocks>31"); }
+            Ok(RtcpPacket::ReceiverReport(ReceiverReport { report_blocks: s.report_blocks.iter().map(sat).collect(), ..s.clone() })) }
+        RtcpPacket::SourceDescription(s) => {
+            if s.chunks.len() > 31 { return Err("chunks>31"); }
+            let mut size = 0;
+            for c in &s.chunks { let mut n = 4; for i in &c.items {
+                if i.ty == 0 { return Err("item-type-0"); } if i.text.len() > 255 { return Err("text>255"); } n += 2 + i.text.len(); }
+                size += align4(n + 1); }
+            if size > MAX_BODY { return Err("body-too-long"); }
+            Ok(p.clone()) }
+        RtcpPacket::Goodbye(b) => { if b.sources.len() > 31 { return Err("sources>31"); }
+            Ok(RtcpPacket::Goodbye(Goodbye { sources: b.sources.clone(), reason: b.reason.as_ref().map(|r| {
+                let mut n = r.len().min(255); while !r.is_char_boundary(n) { n -= 1; } r[..n].to_string() }) })) }
+        RtcpPacket::PictureLossIndication(_) => Ok(p.clone()),
+        RtcpPacket::FullIntraRequest(f) => if 8 + 8 * f.requests.len() > MAX_BODY { Err("body-too-long") } else { Ok(p.clone()) },
+        RtcpPacket::GenericNack(n) => { if n.lost_packets.is_empty() { return Err("empty"); } Ok(norm(p)) }
+        RtcpPacket::RemoteBitrateEstimate(r) => { if r.ssrcs.len() > 255 { return Err("ssrcs>255"); }
+            let bits = 64 - r.bitrate_bps.leading_zeros(); let e = bits.saturating_sub(18);
+            Ok(RtcpPacket::RemoteBitrateEstimate(RemoteBitrateEstimate { bitrate_bps: (r.bitrate_bps >> e) << e, ..r.clone() })) }
+        RtcpPacket::TransportWideCc(t) => { if t.reference_time_64ms >= 1 << 24 { return Err("reftime>24bit"); }
+            if align4(16 + t.payload.len()) > MAX_BODY { return Err("body-too-long"); } Ok(p.clone()) }
+    }
+}
+
+fn be32(b: &[u8], i: usize) -> u32 { u32::from_be_bytes([b[i], b[i + 1], b[i + 2], b[i + 3]]) }
+fn be16(b: &[u8], i: usize) -> u16 { u16::from_be_bytes([b[i], b[i + 1]]) }
+
+/// RFC conformance of ONE serialised packet, read by absolute octet offsets from the packet diagrams
+/// (RFC 3550 §6.4/§6.6, RFC 4585 §6.1-6.3, RFC 5104 §4.3.1.1, REMB draft §2, TWCC draft §3.1) —
+/// independent of the stack's own parser, so a field the builder and the parser misplace *in the same way*
+/// (or a reserved word that is not zero) is still seen. `want` is the canonical packet (`spec_roundtrip`).
+pub fn rfc_layout(want: &RtcpPacket, b: &[u8]) -> Option<String> {
+    if b.len() < 4 || b.len() % 4 != 0 { return Some("length not a multiple of 4".into()); }
+    if b[0] >> 6 != 2 { return Some("version".into()); }
+    if be16(b, 2) as usize != b.len() / 4 - 1 { return Some("length field".into()); }
+    let (p, cnt, pt) = (b[0] & 0x20 != 0, (b[0] & 0x1F) as usize, b[1]);
+    let blk = |o: usize, r: &ReportBlock| -> bool {
+        be32(b, o) == r.ssrc && b[o + 4] == r.fraction_lost
+            && (((b[o + 5] as i32) << 16 | (b[o + 6] as i32) << 8 | b[o + 7] as i32) << 8 >> 8) == r.packets_lost
+            && be32(b, o + 8) == r.highest_sequence && be32(b, o + 12) == r.jitter && be32(b, o + 16) == r.last_sender_report
+            && be32(b, o + 20) == r.delay_since_last_sender_report };
+    let bad = |w: &str| Some(w.to_string());
+    match want {
+        RtcpPacket::SenderReport(s) => {
+            if pt != 200 || p || cnt != s.report_blocks.len() || b.len() != 28 + 24 * cnt { return bad("sr header"); }
+            if be32(b, 4) != s.sender_ssrc || be32(b, 8) != s.ntp_most || be32(b, 12) != s.ntp_least || be32(b, 16) != s.rtp_timestamp
+                || be32(b, 20) != s.packet_count || be32(b, 24) != s.octet_count { return bad("sr sender info"); }
+            if !s.report_blocks.iter().enumerate().all(|(i, r)| blk(28 + 24 * i, r)) { return bad("sr report block"); } }
+        RtcpPacket::ReceiverReport(s) => {
+            if pt != 201 || p || cnt != s.report_blocks.len() || b.len() != 8 + 24 * cnt || be32(b, 4) != s.sender_ssrc { return bad("rr header"); }
+            if !s.report_blocks.iter().enumerate().all(|(i, r)| blk(8 + 24 * i, r)) { return bad("rr report block"); } }
+        RtcpPacket::SourceDescription(s) => {
+            if pt != 202 || p || cnt != s.chunks.len() { return bad("sdes header"); }
+            let mut o = 4;
+            for c in &s.chunks {
+                if o + 4 > b.len() || be32(b, o) != c.ssrc { return bad("sdes chunk ssrc"); } o += 4;
+                for i in &c.items { if o + 2 + i.text.len() > b.len() || b[o] != i.ty || b[o + 1] as usize != i.text.len() || &b[o + 2..o + 2 + i.text.len()] != i.text.as_bytes() { return bad("sdes item"); } o += 2 + i.text.len(); }
+                let end = (o + 4) & !3;      // at least one null octet, then nulls up to the boundary
+                if end > b.len() || b[o..end].iter().any(|x| *x != 0) { return bad("sdes chunk terminator / padding"); } o = end; }
+            if o != b.len() { return bad("sdes trailing octets"); } }
+        RtcpPacket::Goodbye(g) => {
+            if pt != 203 || p || cnt != g.sources.len() || b.len() < 4 + 4 * cnt { return bad("bye header"); }
+            if !g.sources.iter().enumerate().all(|(i, x)| be32(b, 4 + 4 * i) == *x) { return bad("bye sources"); }
+            let o = 4 + 4 * cnt;
+            match &g.reason { None => if b.len() != o { return bad("bye: octets after the sources"); },
+                Some(r) => { if o + 1 + r.len() > b.len() || b[o] as usize != r.len() || &b[o + 1..o + 1 + r.len()] != r.as_bytes()
+                    || b[o + 1 + r.len()..].iter().any(|x| *x != 0) || b.len() != (o + 1 + r.len() + 3) & !3 { return bad("bye reason"); } } } }
+        RtcpPacket::PictureLossIndication(x) => if pt != 206 || p || cnt != 1 || b.len() != 12 || be32(b, 4) != x.sender_ssrc || be32(b, 8) != x.media_ssrc { return bad("pli"); },
+        RtcpPacket::FullIntraRequest(f) => {
+            if pt != 206 || p || cnt != 4 || b.len() != 12 + 8 * f.requests.len() || be32(b, 4) != f.sender_ssrc { return bad("fir header"); }
+            if be32(b, 8) != 0 { return bad("fir: media source SSRC must be 0 (RFC 5104 §4.3.1.2)"); }
+            for (i, r) in f.requests.iter().enumerate() { let o = 12 + 8 * i;
+                if be32(b, o) != r.ssrc || b[o + 4] != r.sequence_number { return bad("fir entry"); }
+                if b[o + 5..o + 8] != [0, 0, 0] { return bad("fir: reserved octets must be 0"); } } }
+        RtcpPacket::GenericNack(n) => {
+            if pt != 205 || p || cnt != 1 || b.len() < 16 || be32(b, 4) != n.sender_ssrc || be32(b, 8) != n.media_ssrc { return bad("nack header"); }
+            let mut set = vec![];
+            for k in 0..(b.len() - 12) / 4 { let (pid, blp) = (be16(b, 12 + 4 * k), be16(b, 14 + 4 * k)); set.push(pid);
+                for i in 0..16 { if blp >> i & 1 == 1 { set.push(pid.wrapping_add(i + 1)); } } }
+            set.sort_unstable(); set.dedup();
+            if set != n.lost_packets { return bad("nack FCI does not denote the lost set"); } }
+        RtcpPacket::RemoteBitrateEstimate(r) => {
+            if pt != 206 || p || cnt != 15 || b.len() != 20 + 4 * r.ssrcs.len() || be32(b, 4) != r.sender_ssrc { return bad("remb header"); }
+            if be32(b, 8) != 0 { return bad("remb: media source SSRC must be 0"); }
+            if &b[12..16] != b"REMB" || b[16] as usize != r.ssrcs.len() { return bad("remb identifier / count"); }
+            let (e, m) = ((b[17] >> 2) as u32, ((b[17] as u64 & 3) << 16) | (b[18] as u64) << 8 | b[19] as u64);
+            if (m as u128) << e != r.bitrate_bps as u128 { return bad("remb mantissa/exponent"); }
+            if !r.ssrcs.iter().enumerate().all(|(i, x)| be32(b, 20 + 4 * i) == *x) { return bad("remb ssrcs"); } }
+        RtcpPacket::TransportWideCc(t) => {
+            let pad = if p { b[b.len() - 1] as usize } else { 0 };
+            if pt != 205 || cnt != 15 || b.len() < 20 + pad || (p && pad == 0) || (!p && (16 + t.payload.len()) % 4 != 0) { return bad("twcc header / padding"); }
+            if be32(b, 4) != t.sender_ssrc || be32(b, 8) != t.media_ssrc || be16(b, 12) != t.base_sequence || be16(b, 14) != t.packet_status_count
+                || (be32(b, 16) >> 8) != t.reference_time_64ms || b[19] != t.feedback_packet_count { return bad("twcc fixed fields"); }
+            if b[20..b.len() - pad] != t.payload[..] { return bad("twcc payload"); }
+            if pad > 3 { return bad("twcc: more padding than needed"); } }
+    }
+    None
 }
 
 /// what a round trip is allowed to change: a NACK is a *set* of sequence numbers
@@ -69,9 +182,8 @@ fn rtp_wf(p: &RtpPacket) -> bool {
     p.header.payload_type < 128 && p.header.csrcs.len() <= 15
         && p.header.extension.as_ref().map_or(true, |e| e.data.len() % 4 == 0 && e.data.len() / 4 <= 65535)
 }
-fn rtp_marshalable(p: &RtpPacket) -> bool {
-    p.header.csrcs.len() <= 15 && p.header.extension.as_ref().map_or(true, |e| e.data.len() % 4 == 0)
-}
+/// everything outside the wire ranges must be an error (no masking, no truncated length field)
+fn rtp_marshalable(p: &RtpPacket) -> bool { rtp_wf(p) }
 
 /// RFC 8285 walk written from the RFC: Some(elements) iff the block is well formed
 fn spec_elems(profile: u16, d: &[u8]) -> Option<Vec<(u8, Vec<u8>)>> {
@@ -86,7 +198,7 @@ fn spec_elems(profile: u16, d: &[u8]) -> Option<Vec<(u8, Vec<u8>)>> {
             out.push((id, d[i + 1..i + 1 + len].to_vec())); i += 1 + len;
         }
         Some(out)
-    } else if profile == 0x1000 {
+    } else if profile & 0xFFF0 == 0x1000 {
         while i < d.len() {
             let id = d[i];
             if id == 0 { i += 1; continue; }
@@ -104,6 +216,8 @@ fn spec_elems(profile: u16, d: &[u8]) -> Option<Vec<(u8, Vec<u8>)>> {
 fn ref_fair_ext(e: &Option<RtpHeaderExtension>) -> bool {
     match e {
         None => true,
+        // (the reference knows the two-byte form only as exactly 0x1000)
+        Some(x) if (0x1001..=0x100F).contains(&x.profile) => false,
         Some(x) if x.profile != 0xBEDE && x.profile != 0x1000 => true,
         Some(x) => spec_elems(x.profile, &x.data).is_some()
             && !(x.profile == 0xBEDE && has_stop15(&x.data)),
@@ -156,7 +270,7 @@ pub fn s_rtp_marshal(run: &mut Run, t: &str) -> (String, Fails) {
     let q = parse_pkt(t);
     let mut f = vec![];
     let r = q.marshal();
-    if !rtp_marshalable(&q) && r.is_ok() { f.push(("codec:rtp:marshal-accepts-invalid".into(), "csrc>15 or unaligned extension accepted".into())); }
+    if !rtp_marshalable(&q) && r.is_ok() { f.push(("codec:rtp:marshal-accepts-invalid".into(), "PT>127, csrc>15, unaligned or over-long extension accepted".into())); }
     if rtp_wf(&q) {
         match &r {
             Err(e) => f.push(("codec:rtp:marshal-rejects-wellformed".into(), show_err(e))),
@@ -236,6 +350,7 @@ pub fn s_ext_get(_run: &mut Run, e: &str, id: &str) -> (String, Fails) {
         Ok(v) => {
             if let Some(x) = &ext { if let Some(el) = spec_elems(x.profile, &x.data) {
                 let maxid = if x.profile == 0xBEDE { 14 } else { 255 };
+                // RFC 8285 §4.3: the low four "appbits" of the two-byte profile are to be ignored
                 let want = if id >= 1 && id <= maxid { el.iter().find(|(i, _)| *i == id).map(|(_, d)| d.clone()) } else { None };
                 if id >= 1 && v.as_deref() != want.as_deref() { f.push((format!("codec:ext:get:{:#x}", x.profile), format!("want {:?} got {:?}", want, v))); }
             } }
@@ -294,35 +409,32 @@ pub fn s_rtcp_marshal(run: &mut Run, toks: &[&str]) -> (String, Fails) {
     let r = match catch(move || marshal_rtcp_packets(&ps2)) { Ok(r) => r, Err(p) => { f.push(("panic:rtcp_marshal".into(), p)); return ("panic".into(), f); } };
     let classes: Vec<Option<&str>> = ps.iter().map(range_class).collect();
     let all_in = classes.iter().all(|c| c.is_none());
-    // the one range class whose wire image is inherently ambiguous (an item of type END) is outside the framing oracle
-    let framing_domain = !classes.iter().any(|c| *c == Some("item-type-0"));
+    // what the wire can carry at all (everything else must be an error) and what must come back
+    let spec: Vec<Result<RtcpPacket, &'static str>> = ps.iter().map(spec_roundtrip).collect();
+    let must_reject = spec.iter().zip(&ps).find_map(|(r, p)| r.as_ref().err().map(|c| (kind(p), *c)));
     match &r {
-        Err(e) => { if all_in { f.push((format!("codec:{}:marshal-rejects-in-range", kind(&ps[0])), show_err(e))); } }
+        Err(e) => { if must_reject.is_none() { f.push((format!("codec:{}:marshal-rejects-representable", kind(&ps[0])), show_err(e))); } }
         Ok(b) => {
             if !b.is_empty() && !is_rtcp(b) { f.push(("codec:rtcp:is_rtcp-misses-own-output".into(), hex(&b[..b.len().min(8)]))); }
-            let first_bad = ps.iter().zip(&classes).find(|(_, c)| c.is_some());
-            let tag = |what: &str| match first_bad { Some((p, c)) => format!("codec:{}:{}:{}", kind(p), what, c.unwrap()), None => format!("codec:{}:{}", ps.first().map_or("compound", kind), what) };
-            match parse_c(b) {
-                Err(p) => f.push((tag("roundtrip-panics"), p)),
-                Ok(Err(e)) => { if framing_domain { f.push((tag("framing"), format!("own output unparsable: {}", show_err(&e)))); } }
-                Ok(Ok(back)) => {
-                    let same_kinds = back.len() == ps.len() && back.iter().zip(&ps).all(|(a, b)| kind(a) == kind(b) && cardinality(a) == cardinality(b));
-                    if !same_kinds { if framing_domain { f.push((tag("framing"), format!("sent {} packets, parsed {}: {}", ps.len(), back.len(), show_rtcps(&back)))); } }
-                    else if !all_in && classes.iter().all(|c| matches!(c, None | Some("lost-outside-24bit"))) {
-                        // RFC 3550 §6.4.1: the cumulative loss saturates at the 24-bit signed limits
-                        let sat = |b: &ReportBlock| ReportBlock { packets_lost: b.packets_lost.clamp(-(1 << 23), (1 << 23) - 1), ..b.clone() };
-                        let want: Vec<RtcpPacket> = ps.iter().map(|p| match norm(p) {
-                            RtcpPacket::SenderReport(mut s) => { s.report_blocks = s.report_blocks.iter().map(sat).collect(); RtcpPacket::SenderReport(s) }
-                            RtcpPacket::ReceiverReport(mut s) => { s.report_blocks = s.report_blocks.iter().map(sat).collect(); RtcpPacket::ReceiverReport(s) }
-                            o => o }).collect();
-                        for (w, b) in want.iter().zip(&back) { if matches!(w, RtcpPacket::SenderReport(_) | RtcpPacket::ReceiverReport(_)) && w != b {
-                            f.push(("codec:rr:loss-saturation".into(), show_rtcp(b))); } }
-                    }
-                    else if all_in {
-                        let want: Vec<RtcpPacket> = ps.iter().map(norm).collect();
-                        if back != want {
-                            let (p, q) = want.iter().zip(&back).find(|(a, b)| a != b).unwrap();
-                            f.push((format!("codec:{}:roundtrip", kind(p)), show_rtcp(q)));
+            if let Some((k, c)) = must_reject { f.push((format!("codec:{k}:marshal-accepts:{c}"), format!("{} bytes written", b.len()))); }
+            else {
+                let want: Vec<RtcpPacket> = spec.iter().map(|r| r.clone().unwrap()).collect();
+                // RFC layout of every packet of the compound, by octet offsets
+                { let mut off = 0;
+                  for w in &want {
+                    if off + 4 > b.len() { f.push((format!("codec:{}:rfc-layout", kind(w)), "compound shorter than its packets".into())); break; }
+                    let l = (be16(b, off + 2) as usize + 1) * 4;
+                    if off + l > b.len() { f.push((format!("codec:{}:rfc-layout", kind(w)), "length field beyond the datagram".into())); break; }
+                    if let Some(d) = rfc_layout(w, &b[off..off + l]) { f.push((format!("codec:{}:rfc-layout", kind(w)), d)); } else { run.count("rtcp_rfc_layout_ok"); }
+                    off += l; } }
+                match parse_c(b) {
+                    Err(p) => f.push(("panic:rtcp_parse".into(), p)),
+                    Ok(Err(e)) => f.push((format!("codec:{}:framing", kind(&ps[0])), format!("own output unparsable: {}", show_err(&e)))),
+                    Ok(Ok(back)) => {
+                        if back.len() != want.len() || back.iter().zip(&want).any(|(a, b)| kind(a) != kind(b) || cardinality(a) != cardinality(b)) {
+                            f.push((format!("codec:{}:framing", kind(&ps[0])), format!("sent {} packets, parsed {}: {}", ps.len(), back.len(), show_rtcps(&back))));
+                        } else if let Some(((w, q), c)) = want.iter().zip(&back).zip(&classes).find(|((a, b), _)| a != b) {
+                            f.push((format!("codec:{}:roundtrip{}", kind(w), c.map_or(String::new(), |c| format!(":{c}"))), show_rtcp(q)));
                         }
                     }
                 }
@@ -339,7 +451,7 @@ pub fn s_rtcp_marshal(run: &mut Run, toks: &[&str]) -> (String, Fails) {
                     }
                     Err(e) => {
                         // the reference insists on RFC-conformant item types / counts it models; everything generated in range is conformant
-                        f.push((format!("codec:{}:ref-rejects", kind(&ps[0])), e));
+                        if e.starts_with("panic") { run.count("rtcp_ref_panics_on_own_limits"); } else { f.push((format!("codec:{}:ref-rejects", kind(&ps[0])), e)); }
                     }
                 }
                 // … and vice versa: what the reference serialises for the same logical packets
@@ -403,7 +515,7 @@ pub fn s_rtcp_parse(run: &mut Run, hx: &str) -> (String, Fails) {
                         // compare only where the text is valid UTF-8 and the SDES types are the reference's
                         let want = refc::expect_ref_text(p);
                         if *t == want { run.count("rtcp_parse_agrees_with_ref"); }
-                        else if !lossy_involved(p) && !matches!(p, RtcpPacket::FullIntraRequest(_)) { f.push((format!("codec:{}:ref-disagree", kind(p)), format!("ref {t} vs {want}"))); }
+                        else if !lossy_involved(p) { f.push((format!("codec:{}:ref-disagree", kind(p)), format!("ref {t} vs {want}"))); }
                     } }
                 } else { run.count("rtcp_parse_ref_different_count"); }
             } else { run.count("rtcp_parse_ref_stricter"); }
@@ -464,7 +576,7 @@ pub fn s_rtx_unwrap(_run: &mut Run, t: &str, ssrc: &str, pt: &str) -> (String, F
 
 pub fn s_apt(_run: &mut Run, hx: &str) -> (String, Fails) {
     let b = unhex(hx);
-    let t = String::from_utf8(b).expect("ascii");
+    let t = String::from_utf8(b).expect("utf-8");
     let r = rustrtc::rtx::parse_apt(&t);
     (match r { None => "none".into(), Some(v) => format!("some:{v}") }, vec![])
 }
@@ -481,6 +593,53 @@ pub fn s_aptmap(_run: &mut Run, toks: &[&str]) -> (String, Fails) {
         if let (Ok(pt), Some(p)) = (a.parse::<u8>(), rest.strip_prefix("apt=").and_then(|x| x.parse::<u8>().ok())) {
             if !rest.contains(';') && !m.contains_key(&pt) { f.push(("codec:rtx:aptmap".into(), format!("{pt} apt={p} not in map"))); } } } } } }
     (show_list(v.iter().map(|(a, b)| format!("{a}:{b}")).collect(), ";"), f)
+}
+
+pub fn s_apt_append(_run: &mut Run, a: &[&str]) -> (String, Fails) {
+    let (prim, rtx, clock): (u8, u8, u32) = (a[0].parse().unwrap(), a[1].parse().unwrap(), a[2].parse().unwrap());
+    let mut formats: Vec<String> = list_of(a[3], ';').iter().map(|x| String::from_utf8(unhex(x)).unwrap()).collect();
+    let mut attrs: Vec<rustrtc::sdp::Attribute> = a[4..].iter().map(|t| match t.split_once('=') {
+        None => rustrtc::sdp::Attribute::new(String::from_utf8(unhex(t)).unwrap(), None),
+        Some((k, v)) => rustrtc::sdp::Attribute::new(String::from_utf8(unhex(k)).unwrap(), Some(String::from_utf8(unhex(v)).unwrap())) }).collect();
+    let before = rustrtc::rtx::extract_rtx_apt_map_from_attrs(&attrs);
+    let had_rtpmap = attrs.iter().any(|x| x.key == "rtpmap" && x.value.as_deref() == Some(format!("{rtx} rtx/{clock}").as_str()));
+    rustrtc::rtx::append_rtx_to_section(&mut formats, &mut attrs, prim, rtx, clock);
+    let m = rustrtc::rtx::extract_rtx_apt_map_from_attrs(&attrs);
+    let got = rustrtc::rtx::rtx_pt_for_primary(&m, prim);
+    let mut cands: Vec<u8> = m.iter().filter(|(_, p)| **p == prim).map(|(r, _)| *r).collect(); cands.sort();
+    let mut f = vec![];
+    // what was appended is read back: the RTX payload type is associated with the primary one
+    if !had_rtpmap && m.get(&rtx) != Some(&prim) { f.push(("codec:rtx:append-not-read-back".into(), format!("{:?}", m.get(&rtx)))); }
+    if had_rtpmap && m != before { f.push(("codec:rtx:append-not-idempotent".into(), String::new())); }
+    if !formats.iter().any(|x| *x == rtx.to_string()) { f.push(("codec:rtx:append-format-missing".into(), String::new())); }
+    match got { Some(g) => if !cands.contains(&g) { f.push(("codec:rtx:pt-for-primary".into(), format!("{g} not associated with {prim}"))); },
+                None => if !cands.is_empty() { f.push(("codec:rtx:pt-for-primary".into(), "none although associated".into())); } }
+    if cands.len() == 1 && got != Some(cands[0]) { f.push(("codec:rtx:pt-for-primary".into(), format!("{got:?}"))); }
+    let mut mv: Vec<(u8, u8)> = m.iter().map(|(a, b)| (*a, *b)).collect(); mv.sort();
+    let out = format!("{}|{}|{}|{}", show_list(formats.iter().map(|x| hex(x.as_bytes())).collect(), ";"),
+        show_list(attrs.iter().map(|x| match &x.value { None => hex(x.key.as_bytes()), Some(v) => format!("{}={}", hex(x.key.as_bytes()), hex(v.as_bytes())) }).collect(), ","),
+        show_list(mv.iter().map(|(a, b)| format!("{a}:{b}")).collect(), ";"), show_list(cands.iter().map(|x| x.to_string()).collect(), ";"));
+    (out, f)
+}
+
+/// `rtx_rx <apt> <rtx ssrc|-> <primary ssrc> <packet>`: the receive-side `maybe_unwrap_rtx` (via hook)
+pub fn s_rtx_rx(_run: &mut Run, a: &[&str]) -> (String, Fails) {
+    let apt: Vec<(u8, u8)> = list_of(a[0], ';').iter().map(|x| { let (p, q) = x.split_once(':').unwrap(); (p.parse().unwrap(), q.parse().unwrap()) }).collect();
+    let rtx_ssrc: Option<u32> = if a[1] == "-" { None } else { Some(a[1].parse().unwrap()) };
+    let ssrc: u32 = a[2].parse().unwrap();
+    let p = parse_pkt(a[3]);
+    let rx = rustrtc::peer_connection::RtpReceiver::new(rustrtc::MediaKind::Video, 0, vec![]);
+    rx.verif_set_rtx_state(apt.clone(), rtx_ssrc, ssrc);
+    let r = rx.verif_maybe_unwrap_rtx(p.clone());
+    let mut f = vec![];
+    // documented behaviour: a packet that is neither on an RTX payload type nor on the RTX SSRC passes unchanged
+    let mapped = apt.iter().find(|(k, _)| *k == p.header.payload_type).map(|(_, v)| *v);
+    if mapped.is_none() && rtx_ssrc != Some(p.header.ssrc) && r.as_ref() != Some(&p) { f.push(("codec:rtx:rx-primary-not-passed".into(), String::new())); }
+    if let (Some(ppt), Some(u)) = (mapped, &r) {
+        if u.header.ssrc != ssrc || u.header.payload_type != ppt || p.payload.len() < 2 || u.payload[..] != p.payload[2..]
+            || u.header.sequence_number != u16::from_be_bytes([p.payload[0], p.payload[1]]) || u.header.timestamp != p.header.timestamp || u.header.marker != p.header.marker {
+            f.push(("codec:rtx:rx-restore".into(), show_pkt(u))); } }
+    (match r { None => "none".into(), Some(u) => format!("some {}", show_pkt(&u)) }, f)
 }
 
 pub fn s_is_rtcp(_run: &mut Run, hx: &str) -> (String, Fails) {
@@ -527,6 +686,8 @@ pub fn exec(run: &mut Run, case: &str) -> (String, String, String, Fails) {
         "rtx_wrap" => s_rtx_wrap(run, a[0], a[1], a[2], a[3]),
         "rtx_unwrap" => s_rtx_unwrap(run, a[0], a[1], a[2]),
         "apt" => s_apt(run, a[0]),
+        "apt_append" => s_apt_append(run, a),
+        "rtx_rx" => s_rtx_rx(run, a),
         "aptmap" => s_aptmap(run, a),
         "is_rtcp" => s_is_rtcp(run, a[0]),
         "osn" => s_osn(run, a[0]),
@@ -553,12 +714,12 @@ fn emit(run: &mut Run, case: String, nontrivial_hint: bool) {
 pub fn run(args: &Args) {
     let mut run = Run::new("c15", &args.out);
     if let Some(case) = &args.replay {
-        const STREAMS: [&str; 19] = ["apt", "aptmap", "rtp_marshal", "rtp_parse", "rtp_parse_ref", "ext_get", "ext_set", "rtcp_marshal", "rtcp_parse",
+        const STREAMS: [&str; 21] = ["apt_append", "rtx_rx", "apt", "aptmap", "rtp_marshal", "rtp_parse", "rtp_parse_ref", "ext_get", "ext_set", "rtcp_marshal", "rtcp_parse",
             "rtcp_parse_ref", "utf8", "rtx_wrap", "rtx_unwrap", "nackbuf", "gap", "is_rtcp", "osn", "rtx_alloc", "-"];
         let first = case.split_whitespace().next().unwrap_or("-");
         // replay files written for a model/implementation disagreement carry the input without its
         // stream name: try every stream the input is well-formed for
-        let cands: Vec<String> = if STREAMS.contains(&first) { vec![case.clone()] } else { STREAMS[..18].iter().map(|s| format!("{s} {case}")).collect() };
+        let cands: Vec<String> = if STREAMS.contains(&first) { vec![case.clone()] } else { STREAMS[..20].iter().map(|s| format!("{s} {case}")).collect() };
         for c in cands {
             let c2 = c.clone();
             let dir = format!("{}/replay", args.out);
@@ -633,7 +794,7 @@ pub fn run(args: &Args) {
         let (e, well) = match rng.below(10) {
             0 => (None, true),
             1..=5 => (Some(RtpHeaderExtension::new(0xBEDE, gens::one_byte_block(&mut rng).0)), true),
-            6 => (Some(RtpHeaderExtension::new(0x1000, gens::two_byte_block(&mut rng).0)), true),
+            6 => (Some(RtpHeaderExtension::new(0x1000 + pk!(rng, [0u16, 0, 1, 7, 15]), gens::two_byte_block(&mut rng).0)), true),
             7 => (Some(RtpHeaderExtension::new(pk!(rng, [0u16, 0x1001, 0xBEDF]), rng.bytes(8))), true),
             _ => (Some(RtpHeaderExtension::new(pk!(rng, [0xBEDEu16, 0xBEDE, 0x1000]), gens::bad_block(&mut rng))), false),
         };
@@ -665,7 +826,7 @@ pub fn run(args: &Args) {
         for k in 0..n { let ty = rng.below(9); ps.push(gens::rtcp_packet(&mut rng, ty, in_range || k > 0)); }
         for p in &ps { run.count(&format!("rtcp_logical:{}:{}", kind(p), range_class(p).unwrap_or("in-range"))); }
         let line = show_rtcps(&ps);
-        if line.len() > 60_000 { continue; }
+        if line.len() > 200_000 { continue; }
         emit(&mut run, format!("rtcp_marshal {line}"), true);
         if let Ok(b) = marshal_rtcp_packets(&ps) {
             if i % 2 == 0 { emit(&mut run, format!("rtcp_parse {}", hex(&b)), true); }
@@ -697,6 +858,48 @@ pub fn run(args: &Args) {
         if pad != 0 { for _ in 1..pad { body.push(0); } body.push(pad as u8); }
         let words = body.len() / 4; v[2] = (words >> 8) as u8; v[3] = words as u8; v.extend(body);
         emit(&mut run, format!("rtcp_parse {}", hex(&v)), true); run.count("rtcp_twcc_padded_wire");
+    }
+    // the 16-bit length fields: largest bodies / extensions that fit, and the first that do not
+    {
+        let fir = |n: usize| RtcpPacket::FullIntraRequest(FullIntraRequest { sender_ssrc: 1, requests: (0..n).map(|k| FirRequest { ssrc: k as u32, sequence_number: k as u8 }).collect() });
+        let twcc = |n: usize| RtcpPacket::TransportWideCc(TransportWideCc { sender_ssrc: 1, media_ssrc: 2, base_sequence: 3, packet_status_count: 4,
+            reference_time_64ms: 5, feedback_packet_count: 6, payload: vec![0xAB; n] });
+        let sdes = |n: usize| RtcpPacket::SourceDescription(SourceDescription { chunks: vec![SdesChunk { ssrc: 9,
+            items: (0..n).map(|_| SdesItem { ty: 1, text: "a".repeat(255) }).collect() }] });
+        for p in [fir(32_766), fir(32_767), twcc(262_124), twcc(262_125), twcc(262_121), sdes(1019), sdes(1020), sdes(1021)] {
+            emit(&mut run, format!("rtcp_marshal {}", show_rtcp(&p)), true); run.count("rtcp_length_field_boundary");
+        }
+        for words in [65_535usize, 65_536] {
+            let mut h = RtpHeader::new(96, 1, 2, 3); h.extension = Some(RtpHeaderExtension::new(0x4321, vec![0x5A; words * 4]));
+            emit(&mut run, format!("rtp_marshal {}", show_pkt(&RtpPacket { header: h, payload: Bytes::from_static(b"xy"), padding_len: 0 })), true);
+            run.count("rtp_ext_length_field_boundary");
+        }
+    }
+    // TWCC feedback built and serialised by the reference implementation (run-length and status-vector chunks,
+    // small and large deltas, its own RTCP padding): the stack must read the same header fields and payload
+    {
+        use rtcp::transport_feedbacks::transport_layer_cc::*;
+        for _ in 0..300 * scale {
+            let n = rng.range(1, 12) as u16;
+            let mut chunks = vec![]; let mut deltas = vec![];
+            if rng.chance(1, 2) {
+                let sym = pk!(rng, [SymbolTypeTcc::PacketReceivedSmallDelta, SymbolTypeTcc::PacketReceivedLargeDelta, SymbolTypeTcc::PacketNotReceived]);
+                chunks.push(PacketStatusChunk::RunLengthChunk(RunLengthChunk { type_tcc: StatusChunkTypeTcc::RunLengthChunk, packet_status_symbol: sym, run_length: n }));
+                if sym != SymbolTypeTcc::PacketNotReceived { for k in 0..n { deltas.push(RecvDelta { type_tcc_packet: sym,
+                    delta: if sym == SymbolTypeTcc::PacketReceivedSmallDelta { 250 * (k as i64 % 200) } else { 250 * (300 + k as i64) * if k % 2 == 0 { 1 } else { -1 } } }); } }
+            } else {
+                let m = n.min(7);
+                let syms: Vec<SymbolTypeTcc> = (0..7).map(|k| if k < m && k % 2 == 0 { SymbolTypeTcc::PacketReceivedSmallDelta } else { SymbolTypeTcc::PacketNotReceived }).collect();
+                for sy in &syms { if *sy == SymbolTypeTcc::PacketReceivedSmallDelta { deltas.push(RecvDelta { type_tcc_packet: *sy, delta: 250 * rng.below(200) as i64 }); } }
+                chunks.push(PacketStatusChunk::StatusVectorChunk(StatusVectorChunk { type_tcc: StatusChunkTypeTcc::StatusVectorChunk, symbol_size: SymbolSizeTypeTcc::TwoBit, symbol_list: syms }));
+            }
+            let t = TransportLayerCc { sender_ssrc: gens::g32(&mut rng), media_ssrc: gens::g32(&mut rng), base_sequence_number: gens::g16(&mut rng),
+                packet_status_count: n, reference_time: (rng.next() as u32) & 0x00FF_FFFF, fb_pkt_count: gens::g8(&mut rng), packet_chunks: chunks, recv_deltas: deltas };
+            let v: Vec<Box<dyn rtcp::packet::Packet + Send + Sync>> = vec![Box::new(t)];
+            if let Some(rb) = refc::ref_marshal_rtcp(v) {
+                if refc::ref_parse_rtcp(&rb).is_ok() { emit(&mut run, format!("rtcp_parse_ref {}", hex(&rb)), true); run.count("rtcp_twcc_from_reference"); }
+            }
+        }
     }
     // boundary NACK sets: every subset of a window straddling 65535 → 0
     let w: u32 = if args.tier_thorough { 20 } else { 11 };
@@ -772,6 +975,40 @@ pub fn run(args: &Args) {
                 3 => Some(format!("{}  {}", 96 + rng.below(4), piece(&mut rng))), _ => Some(format!("{} {}", pk!(rng, [96u64, 97, 97, 98, 300, rng.below(130)]), piece(&mut rng))) };
             match val { None => hex(key.as_bytes()), Some(v) => format!("{}={}", hex(key.as_bytes()), hex(v.as_bytes())) } }).collect();
         emit(&mut run, format!("aptmap {}", toks.join(" ")), true);
+    }
+
+    // apt values with Unicode white space around the parts (str::trim strips White_Space, not only ASCII)
+    for _ in 0..200 * scale {
+        let ws = |rng: &mut Rng| pk!(rng, ["", " ", "\u{a0}", "\u{85}", "\u{2003}", "\u{2028}", "\u{3000}", "\u{1680}", "\u{205f}", "\u{200b}", "\u{feff}", "é"]);
+        let n = rng.below(300);
+        let t = format!("{}apt={}{}{};x=1", ws(&mut rng), ws(&mut rng), n, ws(&mut rng));
+        emit(&mut run, format!("apt {}", hex(t.as_bytes())), true); run.count("apt_unicode_space");
+    }
+    // append_rtx_to_section → extract_rtx_apt_map_from_attrs → rtx_pt_for_primary
+    for _ in 0..400 * scale {
+        let prim = pk!(rng, [96u8, 97, 100, 111, 0, 255, rng.below(128) as u8]);
+        let rtx = pk!(rng, [97u8, 98, 101, 127, 9, 255, rng.below(128) as u8]);
+        let clock = pk!(rng, [90_000u32, 48_000, 8_000, 0, u32::MAX]);
+        let nf = rng.below(4);
+        let fmts: Vec<String> = (0..nf).map(|_| pk!(rng, [prim, rtx, 96, 100]).to_string()).collect();
+        let na = rng.below(5);
+        let attrs: Vec<String> = (0..na).map(|_| { let (k, v) = match rng.below(6) {
+            0 => ("rtpmap".to_string(), Some(format!("{prim} VP8/90000"))), 1 => ("rtpmap".to_string(), Some(format!("{rtx} rtx/{clock}"))),
+            2 => ("fmtp".to_string(), Some(format!("{} apt={}", pk!(rng, [rtx, 98u8, 99]), pk!(rng, [prim, 96u8, 100])))),
+            3 => ("fmtp".to_string(), Some(format!("{prim} max-fs=1200"))), 4 => ("sendrecv".to_string(), None), _ => ("mid".to_string(), Some("0".into())) };
+            match v { None => hex(k.as_bytes()), Some(v) => format!("{}={}", hex(k.as_bytes()), hex(v.as_bytes())) } }).collect();
+        emit(&mut run, format!("apt_append {prim} {rtx} {clock} {} {}", show_list(fmts.iter().map(|x| hex(x.as_bytes())).collect(), ";"), attrs.join(" ")).trim_end().to_string(), true);
+    }
+    // receive side: RTX packets produced by the real wrap, primary packets, unmapped payload types, unlatched SSRC
+    for _ in 0..800 * scale {
+        let orig = { let mut p = gens::rtp_packet(&mut rng, true); p.header.payload_type = pk!(rng, [96u8, 100, 111]); p.header.ssrc = pk!(rng, [1111u32, 2222, 0]); p };
+        let cfg = rustrtc::rtx::RtxSenderConfig { rtx_ssrc: pk!(rng, [9999u32, 9999, 1111]), rtx_payload_type: pk!(rng, [97u8, 97, 101, 96]) };
+        let apt = pk!(rng, ["97:96", "97:96;101:100", "-", "97:100", "101:111;97:96"]);
+        let rs = pk!(rng, ["9999", "9999", "-", "1111"]);
+        let latched = pk!(rng, [1111u32, 1111, 2222, 0]);
+        let pkt = match rng.below(4) { 0 => orig.clone(), 1 => { let mut w = rustrtc::rtx::wrap_rtx_packet(&orig, &cfg, gens::g16(&mut rng)); w.payload = Bytes::from(w.payload[..rng.below(3) as usize].to_vec()); w }
+            _ => rustrtc::rtx::wrap_rtx_packet(&orig, &cfg, gens::g16(&mut rng)) };
+        emit(&mut run, format!("rtx_rx {apt} {rs} {latched} {}", show_pkt(&pkt)), true);
     }
 
     // ---- NACK send buffer and receiver gap detection
